@@ -81,9 +81,50 @@ class C11(Check):
             else:
                 ok = pa['kind'] == 'ok' and pa['vals'][0] == 0 and pa['slot'].startswith('F')
                 if not ok: viol.append(dict(key=pl, got=pub[pl], expected='fails (derived value %r is not positive)' % v, what='public accessor must report unavailable'))
-        stats = dict(rule='exhaustive: Z in [-2,123] x shells [-2,10] x Auger macros [-3,999]: real pr_data.c function vs specification on the raw tables, and public AugerYield/AugerRate vs %.10E of the specification; non-trivial = non-zero derived values',
+        # ---- "each Auger rate equals the RAW RATE OF THAT TRANSITION divided by the shell's net total": the raw rates as data/auger_rates.dat
+        #      states them, matched to macros by NAME (K-L1N6 <-> K_L1N6_AUGER), independently of the loader's name table
+        import os, re as _re, json
+        from vlib.core import REPO
+        hv = json.load(open(ctx.sc.path('aux', 'hdr_vals.json')))
+        macro = {}
+        for n_, v_ in hv.items():
+            m_ = _re.fullmatch(r'(K|[LM]\d)_(\w+)_AUGER', n_)
+            if m_ and v_['kind'] == 'I': macro['%s-%s' % (m_.group(1), m_.group(2))] = v_['value']
+        raw = {}; total = {}
+        for l in open(os.path.join(REPO, 'data', 'auger_rates.dat')):
+            t = l.split()
+            if len(t) != 3: continue
+            try: Z, v = int(t[0]), float(t[2])
+            except ValueError: continue
+            if t[1].endswith('-TOTAL'): total[(Z, t[1][:-6])] = v
+            else: raw[(Z, t[1])] = v
+        def is_ck(nm):
+            ini, fin = nm.split('-'); return ini[0] in (fin[0], fin[2] if len(fin) > 2 else '')
+        def is_ck2(nm):
+            ini, fin = nm.split('-'); hs = _re.findall(r'[KLMNOPQ]\d?', fin); return any(h[0] == ini[0] for h in hs)
+        ndat = 0
+        net = {}
+        for (Z, nm), v in raw.items():
+            ini = nm.split('-')[0]
+            if is_ck2(nm): net[(Z, ini)] = net.get((Z, ini), 0.0) + v
+        for (Z, nm), v in sorted(raw.items()):
+            if nm not in macro or is_ck2(nm) or not (1 <= Z <= 120): continue
+            ini = nm.split('-')[0]
+            tot = total.get((Z, ini), 0.0) - net.get((Z, ini), 0.0)
+            pl = 'AugerRate %d %d E' % (Z, macro[nm])
+            if pl not in pub: continue
+            ndat += 1
+            pa = core.parse_answer(pub[pl])
+            if v > 0 and tot > 0:
+                want = v / tot
+                ok = pa['kind'] == 'ok' and pa['slot'] == 'E' and core.close(pa['vals'][0], want, 1e-9)
+                if not ok: viol.append(dict(key=pl, got=pub[pl], expected='value %r = raw rate %r of %s in data/auger_rates.dat / net total %r' % (want, v, nm, tot), what='Auger rate vs the record of that transition in the data file'))
+            elif v == 0:
+                ok = pa['kind'] == 'ok' and pa['vals'][0] == 0 and pa['slot'].startswith('F')
+                if not ok: viol.append(dict(key=pl, got=pub[pl], expected='fails (the data file records no rate for %s)' % nm, what='Auger rate vs the record of that transition in the data file'))
+        stats = dict(datafile_records_checked=ndat, rule='exhaustive: Z in [-2,123] x shells [-2,10] x Auger macros [-3,999]: real pr_data.c function vs specification on the raw tables, and public AugerYield/AugerRate vs %.10E of the specification; non-trivial = non-zero derived values',
                      distinct_nontrivial=nontriv, exhaustive=True,
                      samples=[dict(call=keys[i], impl=self._prd[keys[i]], expected=e[i]) for i in (40, len(keys) // 2, len(keys) - 5)])
-        return len(keys) * 2, viol, stats
+        return len(keys) * 2 + ndat, viol, stats
 
 CHECK = C11()
